@@ -15,7 +15,8 @@
 //	         string/bytes programs, lib.NewGen programs. SEARCHERS: no string/bytes reachable from the globals
 //	         (arrays, maps and their KEYS, errors, captured variables) above the maximum; an operation whose
 //	         result would not fit fails with errors.Is(ErrStringLimit/ErrBytesLimit). CORRESPONDENCE: the Lean
-//	         guard functions on the same lengths.
+//	         guard functions on the same lengths (type_name and map keys made by converting a non-string index
+//	         included: script boundaries and, stream guard-api, direct calls with texts of any length).
 //	padding  format calls whose field padding is the last write of the call (left-justified fields, widths literal
 //	         and through '*', flags '-' and '0', %x of an empty string, %.0d of 0) across each boundary, each on
 //	         fresh printers, on printers whose buffers were grown by earlier legal format calls of the program,
@@ -617,6 +618,20 @@ func digits(n int) string { // an n-digit integer literal
 	return "1" + strings.Repeat("0", n-1)
 }
 
+// arrayOfTextLen: an array literal of integers whose text ("[1, 1, 1]") is n bytes long (n >= 3)
+func arrayOfTextLen(n int) string {
+	if n < 3 {
+		return "[]"
+	}
+	k, r := n/3, n%3
+	el := make([]string, k)
+	for i := range el {
+		el[i] = "1"
+	}
+	el[0] = digits(1 + r)
+	return "[" + strings.Join(el, ", ") + "]"
+}
+
 var boundaryOps = []boundaryOp{
 	{"string+string", "str", func(T int, c cfg) (string, string, bool) {
 		a := T / 2
@@ -686,6 +701,37 @@ var boundaryOps = []boundaryOp{
 	{"selector-key", "str", func(T int, c cfg) (string, string, bool) {
 		return "x := {}\nx." + strings.Repeat("k", T) + " = 1\n", fmt.Sprintf("(guard lit %d %d)", c.maxStr, T), T >= 1
 	}, same},
+	// Map.IndexSet: the key is the text of the index; a key made by converting a non-string index is guarded
+	{"map[int]=", "str", func(T int, c cfg) (string, string, bool) {
+		if T < 1 || T > 18 {
+			return "", "", false
+		}
+		return "x := {}\nx[" + digits(T) + "] = 1\n", fmt.Sprintf("(guard mapkey %d 0 %d)", c.maxStr, T), true
+	}, same},
+	{"map[array]=", "str", func(T int, c cfg) (string, string, bool) {
+		return "x := {}\nx[" + arrayOfTextLen(T) + "] = 1\n", fmt.Sprintf("(guard mapkey %d 0 %d)", c.maxStr, T), T >= 3
+	}, same},
+	{"map[error]=", "str", func(T int, c cfg) (string, string, bool) {
+		if T < 8 || T > 25 {
+			return "", "", false
+		}
+		return "x := {}\nx[error(" + digits(T-7) + ")] = 1\n", fmt.Sprintf("(guard mapkey %d 0 %d)", c.maxStr, T), true
+	}, same},
+	{"map[bytes]=", "str", func(T int, c cfg) (string, string, bool) {
+		return fmt.Sprintf("x := {}\nx[bytes(%d)] = 1\n", T), fmt.Sprintf("(guard mapkey %d 0 %d)", c.maxStr, T), T >= 1
+	}, func(L int) cfg { return cfg{L, 4*L + 16} }},
+	{"map[string]=", "str", func(T int, c cfg) (string, string, bool) {
+		// a string index is stored as it is; one above the maximum cannot be made: the literal already fails
+		g := fmt.Sprintf("(guard mapkey %d 1 %d)", c.maxStr, T)
+		if T > c.maxStr {
+			g = fmt.Sprintf("(guard lit %d %d)", c.maxStr, T)
+		}
+		return "x := {}\nx[" + lit(T) + "] = 1\n", g, T >= 1
+	}, same},
+	{"map[key of another map]=", "str", func(T int, c cfg) (string, string, bool) {
+		// keys read back by iteration are strings: stored again as they are
+		return "y := {}\ny[" + arrayOfTextLen(T) + "] = 1\nx := {}\nfor k, v in y { x[k] = v }\n", fmt.Sprintf("(guard mapkey %d 0 %d)", c.maxStr, T), T >= 3
+	}, same},
 	{"bytes(string)", "bytes", func(T int, c cfg) (string, string, bool) {
 		return "x := bytes(" + lit(T) + ")\n", fmt.Sprintf("(guard bytes %d %d)", c.maxBytes, T), true
 	}, bytesOnly},
@@ -719,6 +765,45 @@ func lengthOfX(r *vmRun) int {
 	return -1
 }
 
+// boundaryCase runs one boundary operation with would-be length T and compares its outcome with the model.
+func boundaryCase(name, limit, src, guard string, c cfg, T int) {
+	in := input{Kind: "boundary", Source: src, MaxStr: c.maxStr, MaxBytes: c.maxBytes, Note: fmt.Sprintf("%s, would-be length %d", name, T)}
+	o := runLen(src, c, "boundary", name)
+	res.Count("boundary", fmt.Sprint(name, c.maxStr, c.maxBytes, T), true)
+	lim, want := c.maxStr, "stringlimit"
+	if limit == "bytes" {
+		lim, want = c.maxBytes, "byteslimit"
+	}
+	var got string
+	switch {
+	case o.compileErr != nil:
+		got = "err " + isLimitErr(o.compileErr)
+	case o.run.timedOut:
+		return
+	case o.run.failed():
+		got = "err " + isLimitErr(o.run.err)
+	default:
+		got = "ok " + lib.N(lengthOfX(o.run))
+	}
+	res.Dist("boundary:" + strings.Fields(got)[0])
+	if T > lim && got != "err "+want && strings.HasPrefix(got, "err") {
+		e := ""
+		if o.compileErr != nil {
+			e = o.compileErr.Error()
+		} else {
+			e = o.run.errText()
+		}
+		res.Violate(lib.Violation{Signature: "limit-failure-not-limit-error", Stream: "boundary", Input: in, Observed: clip(e, 200),
+			Expected: "the operation fails with the limit error (errors.Is " + want + ")", Oracle: "errors.Is / CompilerError.Err"})
+	}
+	if drv != nil {
+		m := ask(guard)
+		if m != got {
+			res.Disagree(lib.Disagreement{Stream: "boundary", Input: in, Model: m, Impl: got})
+		}
+	}
+}
+
 func boundaryStream() {
 	for _, L := range []int{8, 16, 64} {
 		for _, op := range boundaryOps {
@@ -728,48 +813,105 @@ func boundaryStream() {
 				if !ok {
 					continue
 				}
-				in := input{Kind: "boundary", Source: src, MaxStr: c.maxStr, MaxBytes: c.maxBytes, Note: fmt.Sprintf("%s, would-be length %d", op.name, T)}
-				o := runLen(src, c, "boundary", op.name)
-				res.Count("boundary", fmt.Sprint(op.name, L, T), true)
-				lim, want := c.maxStr, "stringlimit"
-				if op.limit == "bytes" {
-					lim, want = c.maxBytes, "byteslimit"
-				}
-				var got string
-				switch {
-				case o.compileErr != nil:
-					got = "err " + isLimitErr(o.compileErr)
-				case o.run.timedOut:
-					continue
-				case o.run.failed():
-					got = "err " + isLimitErr(o.run.err)
-				default:
-					got = "ok " + lib.N(lengthOfX(o.run))
-				}
-				res.Dist("boundary:" + strings.Fields(got)[0])
-				if T > lim && got != "err "+want && strings.HasPrefix(got, "err") {
-					e := ""
-					if o.compileErr != nil {
-						e = o.compileErr.Error()
-					} else {
-						e = o.run.errText()
-					}
-					res.Violate(lib.Violation{Signature: "limit-failure-not-limit-error", Stream: "boundary", Input: in, Observed: clip(e, 200),
-						Expected: "the operation fails with the limit error (errors.Is " + want + ")", Oracle: "errors.Is / CompilerError.Err"})
-				}
-				if drv != nil {
-					m := ask(guard)
-					if m != got {
-						res.Disagree(lib.Disagreement{Stream: "boundary", Input: in, Model: m, Impl: got})
-					}
-				}
+				boundaryCase(op.name, op.limit, src, guard, c, T)
 			}
+		}
+	}
+	typeNameBoundary()
+	guardAPI()
+}
+
+// typeNameBoundary: type_name returns one of a fixed set of names, so the maximum is moved across the length of
+// each name (max = len-2 … len+2, and 8/16/64) instead of the length across the maximum.
+func typeNameBoundary() {
+	for _, t := range []struct{ expr, name string }{
+		{"1", "int"}, {"{}", "map"}, {"true", "bool"}, {"'c'", "char"}, {"2.5", "float"}, {"[]", "array"}, {"bytes(0)", "bytes"},
+		{"error(1)", "error"}, {"string(1)", "string"}, {"undefined", "undefined"}, {"immutable({})", "immutable-map"},
+		{"immutable([])", "immutable-array"}, {"func() {}", "compiled-function"}, {"len", "builtin-function:len"},
+		{"copy", "builtin-function:copy"}, {"range", "builtin-function:range"}, {"format", "builtin-function:format"},
+		{"is_bool", "builtin-function:is_bool"}, {"is_bytes", "builtin-function:is_bytes"}, {"type_name", "builtin-function:type_name"},
+		{"is_iterable", "builtin-function:is_iterable"}, {"is_undefined", "builtin-function:is_undefined"},
+		{"is_immutable_array", "builtin-function:is_immutable_array"},
+	} {
+		n := len(t.name)
+		src := "x := type_name(" + t.expr + ")\n"
+		done := map[int]bool{}
+		for _, L := range []int{n - 2, n - 1, n, n + 1, n + 2, 8, 16, 64} {
+			if L < 1 || done[L] {
+				continue
+			}
+			done[L] = true
+			boundaryCase("type_name("+t.expr+")", "str", src, fmt.Sprintf("(guard typename %d %d)", L, n), same(L), n)
+		}
+	}
+}
+
+// textObj is a value of an embedding program: its type name and its text are the given string.
+type textObj struct {
+	tengo.ObjectImpl
+	text string
+}
+
+func (o *textObj) TypeName() string { return o.text }
+func (o *textObj) String() string   { return o.text }
+
+// guardAPI calls the two guarded producers directly with lengths that scripts cannot reach: type_name on a value
+// whose type name has any length, Map.IndexSet with a non-string index of any text length and with a string
+// index above the maximum (stored as it is: the guard is for keys made by conversion). Model comparison only.
+func guardAPI() {
+	var typeName *tengo.BuiltinFunction
+	for _, b := range tengo.GetAllBuiltinFunctions() {
+		if b.Name == "type_name" {
+			typeName = b
+		}
+	}
+	show := func(n int, err error) string {
+		if err != nil {
+			return "err " + isLimitErr(err)
+		}
+		return "ok " + lib.N(n)
+	}
+	for _, L := range []int{8, 16, 64} {
+		for _, T := range []int{0, L - 1, L, L + 1, L + 2, L + 7, 4 * L} {
+			text := strings.Repeat("k", T)
+			withLimits(same(L), func() {
+				cmp := func(what, guard, got string) {
+					res.Count("guard-api", fmt.Sprint(what, L, T), true)
+					if drv == nil {
+						return
+					}
+					if m := ask(guard); m != got {
+						res.Disagree(lib.Disagreement{Stream: "guard-api", Input: input{Kind: "guard-api", Source: what, MaxStr: L, MaxBytes: L, Note: fmt.Sprintf("text of %d bytes", T)}, Model: m, Impl: got})
+					}
+				}
+				if typeName != nil {
+					v, err := typeName.Value(&textObj{text: text})
+					n := -1
+					if s, ok := v.(*tengo.String); ok {
+						n = len(s.Value)
+					}
+					cmp("type_name(value whose type name has T bytes)", fmt.Sprintf("(guard typename %d %d)", L, T), show(n, err))
+				}
+				for _, idx := range []struct {
+					what  string
+					o     tengo.Object
+					isStr int
+				}{{"Map.IndexSet(non-string index whose text has T bytes)", &textObj{text: text}, 0}, {"Map.IndexSet(string index of T bytes)", &tengo.String{Value: text}, 1}} {
+					m := &tengo.Map{Value: map[string]tengo.Object{}}
+					err := m.IndexSet(idx.o, tengo.TrueValue)
+					n := -1
+					for k := range m.Value {
+						n = len(k)
+					}
+					cmp(idx.what, fmt.Sprintf("(guard mapkey %d %d %d)", L, idx.isStr, T), show(n, err))
+				}
+			})
 		}
 	}
 }
 
 // genStrProg: a short random program of string/bytes producing operations with lengths near the maximum.
-// It stays away from the two known unguarded producers (non-string map index, type_name).
+// It includes the two producers repaired after O12 / O13 (non-string map index, type_name).
 func genStrProg(r *lib.RNG, L int) string {
 	if L > 200 {
 		L = 40 // default maxima: ordinary sizes
@@ -793,9 +935,22 @@ func genStrProg(r *lib.RNG, L int) string {
 	vals := []string{"12345678", "1.25", "b0", "[s0, s1]", "{k: s0}", "error(s0)", "'x'", "true", "arr", "m", "-9007199254740993", "1e100", "[[s1], {q: s2}]"}
 	fmts := []string{"%s", "%v", "%q", "%x", "%X", "%d", "%5d", "%-6s|", "%08.3f", "%c", "%t", "%10s", "%v%v", "%s-%s", "%5.2s", "% x", "%#x", "%T", "%e", "%08d", "%+d", "%U", "%b", "%o", "%#v", "%6.2f", "%x%x", "%d%%", "%s%%%%", "%z", "%!", "%[2]s%[1]s", "%*d", "%.3s|%c", "%-12d", "%-9s", "%-*s", "%-*v", "%-20v", "%9x", "%.0d"}
 	args := []string{"s0", "s1", "s2", "b0", "12345", "-7", "3.14159", "'z'", "true", "arr", "m", "e", "[s0]", "{k: s1}"}
+	// map indexes that are converted to their text (undefined is not a valid index and is left out)
+	idxs := []string{"123", "-4.5", "'c'", "true", "[1, 2]", "{a: 1}", "b0", "error(s1)", "1234567890123", "arr", "m", "immutable([s0])", "[s0, s1]", "len", "e", "[[s1], {q: s2}]", "-9007199254740993"}
+	typed := []string{"s0", "b0", "arr", "m", "e", "1", "2.5", "'c'", "true", "undefined", "error(s0)", "immutable(arr)", "immutable(m)", "rep", "len", "copy", "format", "type_name", "is_undefined", "is_immutable_array"}
 	n := 3 + r.Intn(8)
 	for i := 0; i < n; i++ {
-		switch r.Intn(14) {
+		switch r.Intn(17) {
+		case 14:
+			if r.Chance(1, 3) {
+				fmt.Fprintf(&sb, "m[%s + %d] = %s\n", digits(1+near()%18), r.Intn(9), sv()) // an integer index near the maximum
+			} else {
+				fmt.Fprintf(&sb, "m[%s] = %s\n", lib.Pick(r, idxs), sv())
+			}
+		case 15:
+			fmt.Fprintf(&sb, "%s = type_name(%s)\n", sv(), lib.Pick(r, typed))
+		case 16:
+			fmt.Fprintf(&sb, "for k, v in m { %s = k; arr = append(arr, k) }\n", sv())
 		case 0, 1:
 			fmt.Fprintf(&sb, "%s = %s + %s\n", sv(), sv(), sv())
 		case 2:
@@ -883,10 +1038,8 @@ func lengthStream(r *lib.RNG) {
 				p.MaxStmts = 6 + rr.Intn(10)
 				g := lib.NewGen(rr, p)
 				src := g.Program()
-				if L < 64 && g.Feat["type_name"] > 0 {
-					res.Skipped++
-					res.Dist("length:skipped-type_name-under-small-maxima(O13)")
-					continue
+				if g.Feat["type_name"] > 0 {
+					res.Dist(fmt.Sprintf("length-gen:max%d:uses-type_name", L))
 				}
 				o := runLen(src, c, "length-gen", "lib.NewGen program")
 				res.Count("length-gen", fmt.Sprint(L, src), o.run != nil && !o.run.failed())
@@ -1357,7 +1510,10 @@ func depthStream(r *lib.RNG) {
 	}
 }
 
-// ---- known findings of the unchanged tree ----
+// ---- findings of this property (known/C06.json): regression probes ----
+//
+// O12 and O13 were repaired in /repo (bbeef2d, 66fdc32): their status is "fixed", so a probe that fails again
+// is reported as a violation. A probe only goes to KnownHits while its entry has status "known".
 
 type finding struct {
 	id, sig, what string
@@ -1366,9 +1522,11 @@ type finding struct {
 }
 
 var findings = []finding{
-	{"O12", "map-key-from-non-string-index-exceeds-string-limit", "a non-string map index is converted with ToString and stored as key without a length check; iteration yields the over-long key",
+	{"O12", "map-key-from-non-string-index-exceeds-string-limit", "a non-string map index is converted with ToString and stored as key; iteration must not yield a key above the maximum (repaired by bbeef2d)",
 		cfg{10, 10}, "m := {}\nm[[1, 2, 3, 4, 5, 6, 7]] = 1\nk := \"\"\nfor kk, v in m { k = kk }\n", "k"},
-	{"O13", "type_name-exceeds-string-limit", "type_name returns the type name without a length check",
+	{"O12", "map-key-from-non-string-index-exceeds-string-limit", "a non-string map index is converted with ToString and stored as key; no key above the maximum (repaired by bbeef2d)",
+		cfg{8, 8}, "m := {}\nm[123456789] = 1\n", "m"},
+	{"O13", "type_name-exceeds-string-limit", "type_name must not return a type name above the maximum (repaired by 66fdc32)",
 		cfg{8, 8}, "t := type_name(len)\n", "t"},
 }
 
@@ -1454,6 +1612,8 @@ func replay(path string) {
 		switch in.Kind {
 		case "budget":
 			checkBudgets(in.Source, "replay", -1, true, r)
+		case "guard-api":
+			guardAPI()
 		case "length", "boundary":
 			// the printer-pool state the input ran with (inputs without a note: primed, which a correct tree cannot observe)
 			primeLen = 1024
